@@ -228,7 +228,9 @@ class Program:
         for f in self.fns.values():
             if f.kind == "closure" or not f.impl_trait or not f.impl_self:
                 continue
-            if f.id.endswith("::" + method) and _last(f.impl_self) == self_name and _last(f.impl_trait) == trait_name:
+            sn = f.impl_self.split("<")[0]
+            self_ok = (_last(f.impl_self) == self_name) if "::" not in self_name else (sn == self_name or sn.endswith("::" + self_name))
+            if f.id.endswith("::" + method) and self_ok and _last(f.impl_trait) == trait_name:
                 out.append(f)
         if len(out) == 1:
             return out[0]
